@@ -42,14 +42,24 @@ Record cfg := {
   clients : list client
 }.
 
-(* What the caller sends to identify itself. [Assertion v]: a client_assertion
-   of type jwt-bearer; v = outcome of op.VerifyJWTAssertion (C14): Some iss =
-   verifies under a key registered for client iss, None = does not verify. *)
-Inductive cred :=
-| NoCred
-| Basic (id sec : string)
-| Post (id sec : string)
-| Assertion (v : option string).
+(* What the caller sends to identify itself - every place the code reads, so that one
+   request can present two identities:
+     cr_basic   Authorization: Basic id:secret (overrides the form fields on both routers:
+                ParseAuthenticatedTokenRequest / parseClientCredentials)
+     cr_id, cr_sec   form fields client_id / client_secret ("" = absent)
+     cr_assert  a client_assertion of type jwt-bearer; its content is the outcome of
+                op.VerifyJWTAssertion (C14): Some iss = verifies under a key registered for
+                client iss, None = does not verify. When present, both routers authenticate
+                by the assertion alone and ignore the other fields. *)
+Record cred := MkCred {
+  cr_basic : option (string * string);
+  cr_id : string; cr_sec : string;
+  cr_assert : option (option string)
+}.
+Definition NoCred : cred := MkCred None "" "" None.
+Definition Basic (id sec : string) : cred := MkCred (Some (id, sec)) "" "" None.
+Definition Post (id sec : string) : cred := MkCred None id sec None.
+Definition Assertion (v : option string) : cred := MkCred None "" "" (Some v).
 
 Definition challenge := (bool * string)%type.   (* (method is S256, challenge) *)
 
@@ -143,10 +153,11 @@ Definition err (r : router) (code : string) : out :=
   | Legacy => OErr (if String.eqb code E_server then 5 else 4) code
   end.
 
+(* ClientID / ClientSecret of the parsed request: Basic wins over the form *)
 Definition cred_id_sec (c : cred) : string * string :=
-  match c with
-  | Basic i s | Post i s => (i, s)
-  | _ => ("", "")
+  match cr_basic c with
+  | Some p => p
+  | None => (cr_id c, cr_sec c)
   end.
 
 Section Machine.
@@ -258,9 +269,9 @@ Definition issue_refresh (s : st) (t : rtok) (c : client) (scopes : list string)
 
 (* ---------- Provider router: code ---------- *)
 Definition prov_code_client (q : areq) (cr : cred) : client + string :=
-  match cr with
-  | Assertion v => if f_pkjwt cf then assertion_client v else inr E_client
-  | _ =>
+  match cr_assert cr with
+  | Some v => if f_pkjwt cf then assertion_client v else inr E_client
+  | None =>
       let (id, sec) := cred_id_sec cr in
       match find_client cf id with
       | None => inr E_client
@@ -297,9 +308,9 @@ Definition prov_code (s : st) (cr : cred) (code : option nat) (uri ver : string)
 
 (* ---------- Legacy router: client verification (withClient) ---------- *)
 Definition legacy_client (cr : cred) : client + string :=
-  match cr with
-  | Assertion v => if f_pkjwt cf then assertion_client v else inr E_client
-  | _ =>
+  match cr_assert cr with
+  | Some v => if f_pkjwt cf then assertion_client v else inr E_client
+  | None =>
       let (id, sec) := cred_id_sec cr in
       if String.eqb id "" then inr E_request
       else match find_client cf id with
@@ -352,15 +363,15 @@ Definition finish_refresh (r : router) (s : st) (t : rtok) (c : client) (scopes 
 
 (* AuthorizeRefreshClient: the client, or the error *)
 Definition prov_refresh_client (cr : cred) : client + string :=
-  match cr with
-  | Assertion v =>
+  match cr_assert cr with
+  | Some v =>
       if f_pkjwt cf then
         match assertion_client v with
         | inr e => inr e
         | inl c => if c_refresh c then inl c else inr E_unauthorized
         end
       else inr E_server                         (* errors.New(...) *)
-  | _ =>
+  | None =>
       let (id, sec) := cred_id_sec cr in
       match find_client cf id with
       | None => inr E_server                    (* storage error, unwrapped *)
